@@ -11,6 +11,10 @@
 
 mod alloc;
 mod codec;
+mod families;
+mod hcsim;
+mod model;
+mod payload;
 mod util;
 mod wire;
 
@@ -222,7 +226,9 @@ fn run_scenario(family: &str, seed: u64, idx: u64, params: &Params) -> ScnOut {
             out.samples = r.samples;
         }
         _ => {
-            out.inconclusive.push(format!("unknown family {}", family));
+            if !families::run_family(family, scn_seed, idx, params, &mut out) {
+                out.inconclusive.push(format!("unknown family {}", family));
+            }
         }
     }
     out
